@@ -25,6 +25,7 @@ def check(chk):
     chk.rule('C12.noorphan_dec', 'return_connection(stream_was_orphaned=True) does not decrement in_flight')
     chk.rule('C12.drain', 'shutdown closes every connection the pool tracks: _connection / _connections / _trash, draining the saved copy after a swap')
     chk.rule('C12.paired', 'Connection.set_keyspace_async hands the connection to its callback (which returns it to the pool, decrementing in_flight) only after it has incremented in_flight')
+    chk.rule('C12.identity', 'HostConnection.return_connection forgets / replaces the current connection only when the returned connection is the current one')
     chk.rule('C12.trash', 'a connection is removed from _trash only on a path that closes it')
     chk.rule('C12.created', 'a connection obtained from connection_factory is published or closed on every path, including exceptional ones')
     chk.rule('C12.publish', 'a connection created after the shutdown test is published under the pool lock together with a re-test of is_shutdown')
@@ -225,3 +226,17 @@ def check(chk):
     chk.judge(not early, 'C12.paired', sk, 'set_keyspace_async: callback(...) only after self.in_flight += 1',
               'the callback runs (line %s) on a path that has not incremented in_flight; both pools\' callbacks call return_connection, so in_flight goes negative and the '
               'pool later hands out more streams than the connection has' % sorted(n.line() for n in early))
+
+    # ---- a dead connection that was already replaced (it sits in the trash) must not make the pool drop its healthy successor
+    rc_ = pool.func('HostConnection.return_connection')
+    grc = CFG(rc_)
+    flrc = Flow(grc, 0, lambda n, c: c)
+    clears = [n for n in grc.stmt_nodes() if n.kind == 'stmt' and isinstance(n.ast, ast.Assign) and src(n.ast.targets[0]) == 'self._connection' and src(n.ast.value) == 'None']
+    if not clears:
+        raise AnalysisError('HostConnection.return_connection: `self._connection = None` not found')
+    for n in clears:
+        same = all(fa.knows('connection is self._connection') is True or fa.knows('self._connection is connection') is True or
+                   fa.knows('connection in self._trash') is False for fa, _c in flrc.at(n))
+        chk.judge(same, 'C12.identity', n.ast, 'return_connection: self._connection = None only for the current connection',
+                  'the returned (defunct) connection is not compared with self._connection: when a connection that was already replaced dies, the pool forgets its healthy '
+                  'current connection - which stays open and is never closed, not even by shutdown() - and opens yet another one')
